@@ -620,10 +620,12 @@ theorem C16_errors (inputs outputs : List Signal) (tests : List TestDesc) :
 
 /-- **An attribute is looked up among the element's own entries** (fix F19): the value `attrib` returns is a child of an
 `entry` child of an `elementAttributes` child of the element, and that entry carries the key as the character data of a
-`string` child — entries nested deeper, inside some value, are never used. -/
+`string` child — entries nested deeper, inside some value, are never used; and the entry has at least two elements: a key
+is never its own value (fix F21). -/
 theorem C16_attrib_own_entry (node : Xml) (label : String) (v : Xml) (h : attrib node label = some v) :
     ∃ attribs ∈ node.children, attribs.tag = "elementAttributes" ∧
       ∃ entry ∈ attribs.children, entry.tag = "entry" ∧ v ∈ entry.children ∧ v.isElem = true ∧
+        2 ≤ (entry.children.filter Xml.isElem).length ∧
         ∃ k ∈ entry.children, k.tag = "string" ∧ k.text? = some label := by
   unfold attrib at h
   split at h
@@ -638,9 +640,11 @@ theorem C16_attrib_own_entry (node : Xml) (label : String) (v : Xml) (h : attrib
       have hp := List.find?_some he
       simp only [List.mem_filter] at hmem
       refine ⟨entry, hmem.1, by simpa using hmem.2, ?_⟩
+      split at h
+      · cases h
       unfold Xml.lastElemChild at h
       have hv := List.mem_of_find?_eq_some h
-      refine ⟨by simpa using hv, List.find?_some h, ?_⟩
+      refine ⟨by simpa using hv, List.find?_some h, by omega, ?_⟩
       split at hp
       · cases hp
       · next s hs =>
